@@ -241,6 +241,11 @@ func (e *Engine) verifAPI(s *State, f *Frame, call *ssa.Call, fn *ssa.Function, 
 		e.Solver.Pref = strArg(args[0])
 		set(nil)
 		return true
+	case short == "verifSymbolic":
+		// true under the engine, false in a native replay: lets a harness reach a callee through an
+		// equivalent natively executable route when the engine's route uses a //verif:cut
+		set(True)
+		return true
 	case short == "verifIsNilSlice":
 		set(Bool(args[0].(SliceV).Obj == 0))
 		return true
